@@ -786,10 +786,12 @@ fn generate(tier: Tier, rng: &mut Rng, em: &mut Emit) {
                     // two shapes per variant, rotating so that every shape occurs for every row
                     vec![(vi * 2) % gen::SHAPES, (vi * 2 + 1 + rng.below(3) as usize) % gen::SHAPES]
                 } else {
-                    (0..gen::SHAPES).collect()
+                    // thorough: four shapes per variant and shard, rotating with the shard's random stream (8 shards cover all)
+                    let start = rng.below(gen::SHAPES as u64) as usize;
+                    (0..4).map(|k| (start + k * 3 + vi) % gen::SHAPES).collect()
                 };
                 for shape in shapes {
-                    let reps = if quick { 1 } else { 3 };
+                    let reps = 1;
                     for _ in 0..reps {
                         let mut enc = match gen::assemble(row, amd64, *opsz, *rex, shape, extra, rng) {
                             Some(e) => e,
